@@ -472,7 +472,7 @@ func ctreeExposure(c *Ctx, rule string) {
 		for _, isB := range []bool{true, false} {
 			at := &Atoms{Class: cls, Bool: map[string]bool{"ISBRANCH": isB, "NILRECV": false, "!NILRECV": true}}
 			e := &PPA{Cond: at.Cond, Inline: func(fr *Frame, call ssa.CallInstruction, callee *ssa.Function) bool {
-				return callee.Pkg == tv.Pkg && (callee.Name() == "isBranch" || callee.Name() == "IsBranch")
+				return callee.Pkg == tv.Pkg && (fbase(callee) == "isBranch" || fbase(callee) == "IsBranch")
 			}}
 			e.Run(tv)
 			c.Paths += len(e.Paths)
@@ -490,4 +490,59 @@ func ctreeExposure(c *Ctx, rule string) {
 			c.Floor(fmt.Sprintf("%s/Value(branch=%v)", rule, isB), n, 1)
 		}
 	}
+}
+
+// contentWriters: who may store into a node's content, and what (shared by C09, C08, C04).
+// Leaf handles are retained by callers (the cache's feed, every subscriber queue) and read
+// later; a delete must unlink the node from its parent and leave the node itself untouched.
+func contentWriters(c *Ctx, rule string) {
+	P := c.P
+	fLB := P.Field("ctree", "Tree", "leafBranch")
+	if fLB == nil {
+		c.Unresolved(rule, "ctree.Tree.leafBranch")
+		return
+	}
+	c.Rule(rule, "package ctree (non-test): a node's content is stored only by (*Leaf).Update and terminalAdd (the new value), by slowAdd (an empty node becomes an empty branch) and by WalkDeleted / DeleteConditional (the emptied root becomes nil); internalDelete stores nothing into a node - a deleted leaf keeps its value for the handles that are still queued for slow subscribers")
+	allowed := map[string]string{
+		"(*ctree.Leaf).Update":            "param",
+		"(*ctree.Tree).terminalAdd":       "param",
+		"(*ctree.Tree).slowAdd":           "branch",
+		"(*ctree.Tree).WalkDeleted":       "nil",
+		"(*ctree.Tree).DeleteConditional": "nil",
+	}
+	n := 0
+	for _, f := range P.PkgFuncs("ctree") {
+		if P.InTestFile(f) {
+			continue
+		}
+		instrs(f, func(in ssa.Instruction) {
+			st, ok := in.(*ssa.Store)
+			if !ok || fieldOf(st.Addr) != fLB {
+				return
+			}
+			if fa, ok := st.Addr.(*ssa.FieldAddr); ok {
+				if _, isAlloc := fa.X.(*ssa.Alloc); isAlloc {
+					return // composite literal of a fresh node
+				}
+			}
+			n++
+			top := f
+			for top.Parent() != nil {
+				top = top.Parent()
+			}
+			kind, okF := allowed[fnName(top)]
+			okVal := false
+			v := unwrap(st.Val)
+			switch kind {
+			case "param":
+				_, okVal = v.(*ssa.Parameter)
+			case "branch":
+				okVal = isNamed(v.Type(), "ctree", "branch")
+			case "nil":
+				okVal = isNilConst(st.Val) || isNilConst(v)
+			}
+			c.Check(okF && okVal, rule, fnName(f), "store into a node's content: "+Expr(st.Val), P.Pos(in.Pos()), fmt.Sprintf("writer allowed=%v, value of the allowed kind (%s)=%v", okF, kind, okVal))
+		})
+	}
+	c.Floor(rule+"/stores", n, 4)
 }
